@@ -1106,7 +1106,7 @@ pub fn penalty(vals: &[bool], enc: &[bool], n: usize) -> (u32, u32) {
 
 // ---------------------------------------------------------------- self-check of R (no subject involved)
 
-pub fn selfcheck_internal() -> Result<String, String> {
+pub fn selfcheck_internal(full: bool) -> Result<String, String> {
     // 0. table product == bitwise product on all pairs
     for a in 0..=255u8 {
         for b in 0..=255u8 {
@@ -1212,6 +1212,9 @@ pub fn selfcheck_internal() -> Result<String, String> {
     // 4. enc/dec round trip on all cells at three lengths
     let mut cells = 0usize;
     for v in 1..=40 {
+        if !full && ![1, 2, 7, 14, 27, 32, 40].contains(&v) {
+            continue;
+        }
         for e in 0..4 {
             for k in 0..8 {
                 for m in 0..3 {
